@@ -33,6 +33,7 @@ def c01_space(tier, rng, scale=1.0):
     texts += soups(rng.fork('soup-long'), n // 6, 40)
     texts += line_soups(rng.fork('lines'), int(n * 0.7))
     texts += boundary_inputs()
+    texts += alias_docs(rng.fork('alias'), int((1500 if tier == 'quick' else 40000) * scale))
     mr = rng.fork('mut')
     for _ in range(int((2000 if tier == 'quick' else 40000) * scale)):
         t = mr.choice(suite)
@@ -885,7 +886,7 @@ def c07(tier, rng):
     seeds = ['!!int x: 1\na: b\n', '{!!null no: 1, c: d}\n', 'a: 1\nb: 2\na: 3\n', '&a [1, 2]: x\n*a : y\n', '- &a [*a]\n', '&a {k: *a}\n',
              '? [a, b]\n: 1\n? [a, b]\n: 2\n', '1: a\n0x1: b\n', '1.0: a\n1: b\n', '~: a\nnull: b\n', '&x a: *x\n*x : &x b\n', 'a: &a b\n*a : c\n--- *a\n',
              '!!str 1: a\n"1": b\n', '!!float 1: a\n1.0: b\n', '- !!bool yes\n- x\n', '? !!int q\n: v\nw: z\n', '{a: 1, a: 2, b: 3, a: 4}\n', '[&a x, *a, &a y, *a]\n']
-    texts = seeds + c01_space(tier, rng)
+    texts = seeds + alias_docs(rng.fork('alias'), 6000 if tier == 'quick' else 200000) + c01_space(tier, rng)
     # the loaders consume the push interface (Parser::load), so that is "the parser" here
     ev = run_impl([f'psh buf 1 {hx(t)}' for t in texts])
     keep = [(t, e) for t, e in zip(texts, ev) if 'PANIC' not in e]
@@ -990,7 +991,7 @@ def c19(tier, rng):
     res.rule = "accepted and rejected inputs of the C01 space; 4 node kinds x {eager, lazy, lazy+resolve}; non-trivial = a document with a collection; distinct by text"
     res.corr_ops = ['lod <kind> <mode> for all 4 kinds and 3 modes']
     seeds = ['a: [1, x]\n', '- 1\n- 0x2\n', '[~, true, 1.5, "s"]\n', '!!int x\n', '{1: a, 0x1: b}\n', '- - - 1\n', '&a [1]\n', 'k: !!float 1\n', "- '1'\n- \"2\"\n- |\n 3\n"]
-    texts = seeds + c01_space(tier, rng, 0.6)
+    texts = seeds + alias_docs(rng.fork('alias'), 3000 if tier == 'quick' else 100000) + c01_space(tier, rng, 0.6)
     reqs = []
     for t in texts:
         h = hx(t)
@@ -2081,11 +2082,16 @@ def c05(tier, rng):
     res.exhaustive = True
     cases = list(R.block_cases(ML, kinds))
     reqs, exps = [], []
+    vreqs = []
     for c in cases:
         ctx, style, chomp, combo, final_nl, explicit, comment = c
-        reqs.append('evt str 128 0 ' + hx(R.block_render(ctx, style, chomp, combo, final_nl, explicit, comment)))
+        doc = R.block_render(ctx, style, chomp, combo, final_nl, explicit, comment)
+        reqs.append('evt str 128 0 ' + hx(doc))
         exps.append(R.block_ref_text(style, chomp, combo))
+        # the same block scalar through the buffered back-end and with CR LF / CR line breaks
+        vreqs += ['evt buf 16 0 ' + hx(doc), 'evt buf 16 0 ' + hx(doc.replace('\n', '\r\n')), 'evt str 128 0 ' + hx(doc.replace('\n', '\r'))]
     impl = run_impl(reqs)
+    vimpl = run_impl(vreqs)
     nm = len(reqs) if tier == 'thorough' else 30000
     step = max(1, len(reqs) // nm)
     msel = list(range(0, len(reqs), step))
@@ -2114,6 +2120,15 @@ def c05(tier, rng):
             res.oracle_failures.append({'sig': sig, 'what': why, 'reqs': [reqs[n]], 'input': repr(unhx(reqs[n].split(' ')[4]))})
         if n in model and model[n] != a and 'PANIC' not in a:
             diff(res, reqs[n], a, model[n], 'evt')
+        if not why:
+            for j, name in ((0, 'buffered input'), (1, 'buffered input, CR LF breaks'), (2, 'CR breaks')):
+                v = vimpl[3 * n + j]
+                g2, t2 = R.parse_events(v) if 'PANIC' not in v else ([], ['PANIC'])
+                b2 = [e for e in g2 if e[0] == 'SC' and e[3] in ('L', 'F')]
+                if t2[0] != tail[0] or [e[4] for e in b2] != [e[4] for e in blk]:
+                    res.oracle_failures.append({'sig': usig(vreqs[3 * n + j]), 'what': f'{name}: block scalar value {b2[0][4] if b2 else None!r} differs from {blk[0][4] if blk else None!r}',
+                                                'reqs': [reqs[n], vreqs[3 * n + j]], 'input': repr(unhx(vreqs[3 * n + j].split(' ')[4]))})
+                    break
         if n % 20011 == 0:
             res.samples.append({'document': unhx(reqs[n].split(' ')[4]), 'expected': exps[n]})
     return res
